@@ -6,7 +6,8 @@ from pyvc import shapes as S
 from pyvc import values as V
 from pyvc.api import *
 from pyvc.api import PROTOCOLS
-from pyvc.values import cur, mk_bool
+from pyvc.values import cur, mk_bool, ite
+from pyvc.seqs import View
 from contracts.proto_widget import *
 from contracts.C16_focuslist import ML as MLK, RI as LIST_RI, focus_set as MFL_FOCUS_SET, focus_get as MFL_FOCUS_GET
 
@@ -206,7 +207,7 @@ from urwid.widget import columns as _columns  # noqa: E402
 CO = "urwid/widget/columns.py:"
 CITEM = Tup(Opaque("Widget"), Tup(Atom("pack", "given", "weight"), Opt(Int), Bool))
 CCONTENTS = Obj(_mlmod.MonitoredFocusList, dict(items=ListOf(CITEM), _focus=Int), base_list="items")
-COLUMNS = Obj(_columns.Columns, dict(_contents=CCONTENTS, _selectable=Bool, pref_col=Opt(Int), _cache_maxcol=Opt(Int)))
+COLUMNS = Obj(_columns.Columns, dict(_contents=CCONTENTS, _selectable=Bool, pref_col=Opt(Int), _cache_maxcol=Opt(Int), dividechars=Int, min_width=Int))
 CINL = (CO + "Columns.contents",)
 
 
@@ -283,17 +284,130 @@ class col_contents_modified:
         yield "invalidated", count_ev(s.trace, "_invalidate") == 1
 
 
+# One entry of the size-argument tuple: (arity, cols, rows) stands for () / (cols,) / (cols, rows).
+SIZERAW = Tup(Int(0, 2), Dim, Dim)
+
+
+class LazySize(V.Sym):
+    """A size tuple () / (cols,) / (cols, rows) whose arity is symbolic: kept as the (arity, cols, rows) triple and
+    decoded (a three-way fork) only where it is handed to a child (pyvc.protocol.force_lazy) or compared."""
+
+    def __init__(self, raw):
+        self.raw = raw
+
+    def py_force(self, st):
+        k, c, r = self.raw
+        j = st.choose([k == 0, k == 1, k == 2])
+        return ((), (c,), (c, r))[j]
+
+    def __repr__(self):
+        return f"LazySize{self.raw!r}"
+
+
+def decode_size(raw):
+    return LazySize(raw)
+
+
+def size_is(size, raw):
+    """The concrete-arity size tuple `size` is the one the (arity, cols, rows) triple stands for (no fork)."""
+    size = getattr(size, "raw", size)
+    if isinstance(size, tuple) and len(size) == 3 and isinstance(raw, tuple) and size is raw:
+        return True
+    k, c, r = raw
+    if isinstance(size, LazySize):
+        return both(*[eq(x, y) for x, y in zip(size.raw, raw)])
+    return both(k == len(size), *[x == y for x, y in zip(size, (c, r))])
+
+
+def _gcs_facts(old, a, widths, heights, raw, i):
+    """What Columns.get_column_sizes guarantees about entry i (non-fixed size), as labelled formulas."""
+    st = cur()
+    W = PROTOCOLS["Widget"]
+    size = a.size
+    k, c, r = Q.seq_get(raw, i)
+    w_i = Q.seq_get(widths, i)
+    h_i = Q.seq_get(heights, i)
+    child = item_at(old, i)[0]
+    foc = both(a.focus, old._contents._focus == i)
+    yield "size-argument-carries-the-column-width", implies(k >= 1, c == w_i)
+    if len(size) == 2:
+        yield "box-children-get-the-box-height", implies(k == 2, r == size[1])
+    rows1 = W.call_quiet(st, child, "rows", dict(size=(c,), focus=foc))
+    pack0 = W.call_quiet(st, child, "pack", dict(size=(), focus=foc))
+    yield "height-is-what-the-child-renders-at-that-size", implies(w_i > 0, h_i == ite(k == 2, r, ite(k == 1, rows1, pack0[1])))
+
+
 @contract(CO + "Columns.get_column_sizes", property=(), assumed=True, deterministic=True,
-          notes="(widths, heights, size arguments) of the visible columns (C19/C01 own the values); the number of entries is at most the number of children")
+          notes="(widths, heights, size arguments) of the displayed columns: one entry per displayed column (at most one per "
+                "child), widths >= 0 (0 hides the column); a size argument of arity >= 1 carries the column's width, in box "
+                "mode a 2-tuple carries the box height; the height of a visible column is the number of rows its child "
+                "renders at its size argument.  Facts about entry i are instantiated wherever entry i is read.  The widths "
+                "themselves are Columns.column_widths' (C19, branch agent/colw); fixed size () is not covered")
 class col_gcs:
     self_shape = COLUMNS
     params = dict(size=Opaque("SizeArg"), focus=Bool)
-    result = Tup(ListOf(Dim, tuple_=True), ListOf(Dim, tuple_=True), ListOf(Opaque("SizeArg"), tuple_=True))
+    result = Tup(ListOf(Dim, tuple_=True), ListOf(Dim, tuple_=True), ListOf(SIZERAW, tuple_=True))
 
     def ensures(old, s, a, result):
         n = n_items(old)
         m = Q.seq_len(result[0])
         yield "aligned-with-the-children", both(m <= n, Q.seq_len(result[1]) == m, Q.seq_len(result[2]) == m)
+
+    def apply(self, ip, st, f, args, kwargs, site=None, check_pre=True):
+        widths, heights, raw = Contract.apply(self, ip, st, f, args, kwargs, site=site, check_pre=check_pre)
+        vals = self.bind(f, args, kwargs)
+        self_obj = vals.pop("self")
+        a = View(vals)
+        if not isinstance(a.size, tuple):
+            facts = lambda i: ()  # noqa: E731  (opaque size: only the lengths are known)
+        else:
+            if len(a.size) == 0:
+                raise Unsupported("Columns.get_column_sizes(()) (fixed size) has no contract")
+            old = self_obj.snapshot()
+            busy = []
+
+            def facts(i):
+                if busy:
+                    return
+                busy.append(1)
+                try:
+                    for _label, fml in _gcs_facts(old, a, widths, heights, raw, i):
+                        cur().assume(fml)
+                    if cur().ghost.get("columns_all_visible"):
+                        # the caller's fit precondition "every displayed column has a positive width", instantiated at i
+                        cur().assume(implies(both(0 <= i, i < Q.seq_len(widths)), Q.seq_get(widths, i) > 0))
+                finally:
+                    busy.pop()
+
+        def wrap(seq, conv=lambda x: x):
+            def getter(i, seq=seq):
+                v = seq.getter(i)
+                facts(i)
+                return conv(v)
+
+            r = Q.SSeq(seq.length, getter, seq.shape, None, seq.name)
+            r.raw = seq
+            return r
+
+        ws = wrap(widths)
+        ps = z3.Function(f"{widths.name}$psum", z3.IntSort(), z3.IntSort())
+
+        def psum(k, ws=ws):
+            # prefix-sum model field of the widths (definition, instantiated at the indices read)
+            cur().assume(ps(z3.IntVal(0)) == 0)
+            return V.mk_int(ps(V._z(k)))
+
+        def wget(i, inner=ws.getter):
+            v = inner(i)
+            zi = V._z(i)
+            cur().assume(ps(zi + 1) == ps(zi) + V._z(v))
+            return v
+
+        ws.getter = wget
+        ws.psum = psum
+        sizes = wrap(raw, decode_size)
+        sizes.lazy = True
+        return ws, wrap(heights), sizes
 
 
 @contract(CO + "Columns.keypress", property="C08", replayable=False, inline=CINL)
